@@ -3,6 +3,7 @@
 
    Graphs are simple labelled graphs: a node list, a label function (element, as the rank of the
    atomic symbol in the sorted list of symbols, so that nat order = Python string order of the symbols)
+   an atom-class function,
    and a duplicate-free edge list in the iteration order of networkx `graph.edges`.
    External code is an oracle: networkx isomorphism (`iso_b`), `nx.cycle_basis` (ring sizes), the
    geometry-based neighbour lists (`nl`).  Exceptions are explicit result constructors.            *)
@@ -15,7 +16,9 @@ Open Scope nat_scope.
 
 (* ------------------------------------------------------------------ edges / graphs *)
 Definition edge := (nat * nat)%type.
-Record graph := mkGraph { g_nodes : list nat; g_label : nat -> nat; g_edges : list edge }.
+(* g_class: the atom_class node attribute (0 = None) that is_isomorphic's node matcher compares besides
+   atom_label (mol_graphs.py:109-116); it plays no role in the bond-type bookkeeping *)
+Record graph := mkGraph { g_nodes : list nat; g_label : nat -> nat; g_class : nat -> nat; g_edges : list edge }.
 
 Definition edge_eqb (a b : edge) : bool := (fst a =? fst b) && (snd a =? snd b).
 Definition flip (e : edge) : edge := (snd e, fst e).
@@ -40,7 +43,7 @@ Definition degree (g : graph) (i : nat) : nat := degree_l (g_edges g) i.
 Definition add_edge (l : list edge) (e : edge) : list edge := if has_edge l e then l else l ++ [e].
 Definition remove_edge (l : list edge) (e : edge) : list edge := filter (fun x => negb (same_u x e)) l.
 Definition apply_edit (g : graph) (fb bb : list edge) : graph :=
-  mkGraph (g_nodes g) (g_label g) (fold_left remove_edge bb (fold_left add_edge fb (g_edges g))).
+  mkGraph (g_nodes g) (g_label g) (g_class g) (fold_left remove_edge bb (fold_left add_edge fb (g_edges g))).
 
 (* ------------------------------------------------------------------ get_bond_type_list (mol_graphs.py:663-698) *)
 Definition key := (nat * nat)%type.
